@@ -1124,7 +1124,7 @@ func addLinkage(m *Module, st *Stmt) {
 
 func (g *gen) breakSomething() {
 	t := g.t
-	op := t.Draw(21)
+	op := t.Draw(22)
 	mods := g.mods
 	m := mods[t.Draw(len(mods))]
 	switch op {
@@ -1180,6 +1180,34 @@ func (g *gen) breakSomething() {
 				return
 			}
 		}
+		if t.Coin() {
+			tail, cyc := t.Draw(3), 1+t.Draw(3)
+			n := tail + cyc
+			names := make([]string, n)
+			for i := range names {
+				names[i] = g.name("gcy")
+			}
+			var defs []*Stmt
+			for i := range names {
+				nx := names[tail]
+				if i+1 < n {
+					nx = names[i+1]
+				}
+				u := S("uses", nx)
+				if t.Coin() {
+					u = S("container", g.name("c"), u)
+				}
+				defs = append(defs, S("grouping", names[i], S("leaf", g.name("l"), S("type", "string")), u))
+			}
+			for _, i := range t.Perm(len(defs)) {
+				m.Root.Add(defs[i])
+			}
+			if t.Coin() {
+				m.Root.Add(S("container", g.name("c"), S("uses", names[0])))
+			}
+			g.set.Ops = append(g.set.Ops, "grouping-cycle", fmt.Sprintf("shape:tail%d-cycle%d", tail, cyc))
+			return
+		}
 		gs := g.topLevel("grouping")
 		if len(gs) >= 2 {
 			a, b := gs[0], gs[t.Draw(len(gs))]
@@ -1197,30 +1225,58 @@ func (g *gen) breakSomething() {
 		}
 		m.Root.Add(S("grouping", "gself", S("uses", "gself")))
 		g.set.Ops = append(g.set.Ops, "grouping-self-cycle")
-	case 3: // typedef cycle
-		tds := g.topLevel("typedef")
-		if len(tds) >= 2 && tds[0].m == tds[1].m && t.Coin() {
-			tds[0].s.Find("type").Arg = tds[1].s.Arg
-			tds[0].s.Find("type").Kids = nil
-			tds[1].s.Find("type").Arg = tds[0].s.Arg
-			tds[1].s.Find("type").Kids = nil
-			g.set.Ops = append(g.set.Ops, "typedef-cycle")
-		} else {
-			a, b := g.name("tc"), g.name("tc")
-			m.Root.Add(S("typedef", a, S("type", b)), S("typedef", b, S("type", a)))
-			if t.Coin() {
-				m.Root.Add(S("leaf", g.name("l"), S("type", a)))
-			}
-			g.set.Ops = append(g.set.Ops, "typedef-cycle")
+	case 3, 4, 5: // typedef / identity / feature reference graphs of every cyclic shape
+		// shape: a chain of `tail` definitions leading into a cycle of `cyc` definitions (tail 0 = plain cycle,
+		// cyc 1 = self reference); definitions are emitted in a drawn order, optionally with a user of the chain
+		tail, cyc := t.Draw(3), 1+t.Draw(3)
+		n := tail + cyc
+		names := make([]string, n)
+		pfx := map[int]string{3: "tc", 4: "idc", 5: "fc"}[op]
+		for i := range names {
+			names[i] = g.name(pfx)
 		}
-	case 4: // identity cycle
-		a, b := g.name("idc"), g.name("idc")
-		m.Root.Add(S("identity", a, S("base", b)), S("identity", b, S("base", a)))
-		g.set.Ops = append(g.set.Ops, "identity-cycle")
-	case 5: // feature cycle
-		a, b := g.name("fc"), g.name("fc")
-		m.Root.Add(S("feature", a, S("if-feature", b)), S("feature", b, S("if-feature", a)))
-		g.set.Ops = append(g.set.Ops, "feature-cycle")
+		next := func(i int) string {
+			if i+1 < n {
+				return names[i+1]
+			}
+			return names[tail] // close the cycle
+		}
+		var defs []*Stmt
+		for i := range names {
+			switch op {
+			case 3:
+				// a typedef in the chain may be declared in a nested scope user (container) later; here top-level
+				defs = append(defs, S("typedef", names[i], S("type", next(i))))
+			case 4:
+				defs = append(defs, S("identity", names[i], S("base", next(i))))
+			case 5:
+				defs = append(defs, S("feature", names[i], S("if-feature", next(i))))
+			}
+		}
+		order := t.Perm(len(defs))
+		target := m.Root
+		if op == 3 && t.Rare(3) {
+			// typedefs scoped inside a container or grouping
+			target = S([]string{"container", "grouping"}[t.Draw(2)], g.name("sc"))
+			m.Root.Add(target)
+		}
+		for _, i := range order {
+			target.Add(defs[i])
+		}
+		if t.Coin() {
+			switch op {
+			case 3:
+				target.Add(S("leaf", g.name("l"), S("type", names[0])))
+			case 4:
+				m.Root.Add(S("leaf", g.name("l"), S("type", "identityref", S("base", names[0]))))
+			case 5:
+				m.Root.Add(S("leaf", g.name("l"), S("type", "string"), S("if-feature", names[0])))
+				own := g.owner(m).Name
+				g.set.Features = append(g.set.Features, own+":"+names[0])
+			}
+		}
+		g.set.Ops = append(g.set.Ops, fmt.Sprintf("%s-cycle", map[int]string{3: "typedef", 4: "identity", 5: "feature"}[op]))
+		g.set.Ops = append(g.set.Ops, fmt.Sprintf("shape:tail%d-cycle%d", tail, cyc))
 	case 6:
 		m.Root.Add(S("leaf", g.name("l"), S("type", "nosuchtype")))
 		g.set.Ops = append(g.set.Ops, "dangling-type")
@@ -1263,6 +1319,41 @@ func (g *gen) breakSomething() {
 			tn := g.name("t")
 			m.Root.Add(S("typedef", tn, S("type", "int8", S("range", "0..10"))), S("leaf", g.name("l"), S("type", tn, S("range", "5..20"))))
 			g.set.Ops = append(g.set.Ops, "bad-range-widening")
+		}
+	case 21: // identities with the SAME local name in different modules, derived from one base (legal YANG)
+		{
+			mk := func(name, pfx string) *Module {
+				m := &Module{Name: name, Prefix: pfx}
+				m.Root = S("module", name, S("namespace", "urn:"+name), S("prefix", pfx))
+				return m
+			}
+			ba := mk(g.name("ia"), g.name("pia"))
+			bb := mk(g.name("ib"), g.name("pib"))
+			bc := mk(g.name("ic"), g.name("pic"))
+			ba.Root.Add(S("identity", "speed"), S("identity", "slow", S("base", "speed")))
+			if t.Coin() {
+				ba.Root.Add(S("identity", "fast", S("base", "speed")))
+			}
+			for _, m := range []*Module{bb, bc} {
+				m.Root.Add(S("import", ba.Name, S("prefix", ba.Prefix)))
+				m.Root.Add(S("identity", "fast", S("base", ba.Prefix+":speed")))
+				if t.Coin() {
+					m.Root.Add(S("identity", g.name("faster"), S("base", "fast")))
+				}
+			}
+			user := []*Module{ba, bb, bc}[t.Draw(3)]
+			base := "speed"
+			if user != ba {
+				base = ba.Prefix + ":speed"
+			}
+			lf := S("leaf", g.name("l"), S("type", "identityref", S("base", base)))
+			if t.Coin() {
+				lf.Add(S("default", []string{"slow", bb.Name + ":fast", bc.Name + ":fast", "fast"}[t.Draw(4)]))
+			}
+			user.Root.Add(lf)
+			g.set.Mods = append(g.set.Mods, ba, bb, bc)
+			g.all = append(g.all, ba, bb, bc)
+			g.set.Ops = append(g.set.Ops, "same-identity-name-in-two-modules")
 		}
 	case 20: // the same prefix string ("dep") denotes different modules in two importers that contain textually identical references
 		{
